@@ -307,6 +307,15 @@ def advance (s : St) (mtch : Bool) : Step :=
       | .ok (s2, it, io, r) =>
         advLoop A (8 * A.size + 16) s2 (if r then [⟨it, io⟩] else [])
 
+/-- what a leaf can match at all, whatever the counters say (name or substitute for an element,
+    the namespace/notQName constraint for a wildcard) -/
+def baseMatch (i : Nat) (q : QN) : Bool :=
+  let n := A.node i
+  match n.kind with
+  | .elem => n.names.contains q
+  | .any => allowsQ n.wc q
+  | _ => false
+
 /-- `match_element` of the visitor (models.py:258). -/
 def visitorMatch (s : St) (q : QN) : Bool :=
   match s.element with
@@ -363,11 +372,14 @@ structure LoopSt where
   s : St
   errors : List ChildErr := []
   broken : Bool := false
+  fuelOut : Bool := false          -- sticky: the model ran out of fuel while processing some child
   deriving Inhabited
 
 /-- `while model.element is not None:` for one child (groups.py:1021-1049). -/
 def childStep (oc : OC) (n root : Nat) (index : Nat) (q : QN) : Nat → LoopSt → LoopSt
-  | 0, ls => { ls with s := { ls.s with fuelOut := true } }
+  | 0, ls =>
+    -- out of fuel: flagged (never a verdict: the harness reports it) and counted as an error of the model
+    { ls with errors := ls.errors ++ [⟨index, root, 0⟩], broken := true, fuelOut := true }
   | fuel + 1, ls =>
     match ls.s.element with
     | none =>
@@ -419,7 +431,7 @@ def childErrors (n root : Nat) (w : List QN) (oc : OC := {}) : Verdict :=
     | some _ => match stopFirst A oc fuelC ls.s with
       | (some e, fo) => ([ChildErr.mk w.length e.particle e.occurs], fo)
       | (none, fo) => ([], fo)
-  ⟨ls.errors ++ tail, ls.s.fuelOut || fo⟩
+  ⟨ls.errors ++ tail, ls.fuelOut || ls.s.fuelOut || fo⟩
 
 /-- the implementation's verdict on a child sequence -/
 def verdict (n root : Nat) (w : List QN) (oc : OC := {}) : Bool :=
